@@ -258,6 +258,7 @@ pub fn sample_of(plan: &Plan, out: &Outcome) -> serde_json::Value {
                     Step::Until { ms } => format!("until({ms})"),
                     Step::AwaitResponses { count, .. } => format!("await_resp({count})"),
                     Step::AwaitRespBytes { n, .. } => format!("await_bytes({n})"),
+                    Step::AwaitRaw { n, .. } => format!("await_raw({n})"),
                     Step::AwaitEof { .. } => "await_eof".into(),
                     Step::Close => "CLOSE".into(),
                     Step::Reset => "RESET".into(),
